@@ -287,6 +287,21 @@ def check_zoo(params):
     return out
 
 
+# the same *name* used by atoms of two classes (an adjoint wire n.r is not the plain object 'n', ...)
+COLLISIONS = [
+    ("rigid", "Box('f', n, n.r)", "monoidal", "Box('g', Ty('n'), Ty('n'))"),
+    ("rigid", "Box('f', n, n.l.l)", "monoidal", "Box('g', Ty('n'), Ty('n'))"),
+    ("rigid", "Cap(n.r, n)", "monoidal", "Box('g', Ty('n', 'n'), Ty())"),
+    ("rigid", "Box('f', s, s @ n.r)", "monoidal", "Box('g', Ty('s', 'n'), Ty('s'))"),
+    ("pregroup", "Word('w', n.r @ s)", "monoidal", "Box('g', Ty('n', 's'), Ty())"),
+    ("circuit", "H", "monoidal", "Box('g', Ty('qubit'), Ty('qubit'))"),
+    ("circuit", "Measure()", "monoidal", "Box('g', Ty('qubit'), Ty('bit'))"),
+    ("zx", "Z(1, 2, 0.25)", "monoidal", "Box('g', Ty(1), Ty(1, 1))"),
+    ("tensor", "Box('a', Dim(2), Dim(3), [1, 2, 3, 4, 5, 6])", "monoidal", "Box('g', Ty(3), Ty(2))"),
+    ("biclosed", "Box('u', Ty(), x << y)", "monoidal", "Box('g', Ty('x'), Ty('y'))"),
+    ("rigid", "Box('f', n, n.r)", "pregroup", "Word('w', n, dom=n)"),
+    ("rigid", "Box('f', n, n.r)", "tensor", "Box('a', Dim(2), Dim(2), [1, 2, 3, 4])"),
+]
 MIX_REPS = {"monoidal": [0, 10], "rigid": [1, 8, 16], "pregroup": [1], "tensor": [0, 7, 14], "circuit": [6, 60, 100],
             "zx": [0, 16, 18], "biclosed": [0, 4], "cartesian": [0, 6]}
 
@@ -299,7 +314,9 @@ def check_mix(params):
     a = zoo.value(params["cls1"], params["expr1"])
     b = zoo.value(params["cls2"], params["expr2"])
     out, n = [], 0
-    for label, thunk in (("a @ b", lambda: a @ b), ("b @ a", lambda: b @ a), ("a >> b", lambda: a >> b),
+    for label, thunk in (("a @ b", lambda: a @ b), ("b @ a", lambda: b @ a), ("a >> b", lambda: a >> b), ("b >> a", lambda: b >> a),
+                         ("a >> b[::-1]", lambda: a >> b[::-1]), ("a.downgrade() >> b", lambda: a.downgrade() >> b),
+                         ("Diagram(a.dom, b.cod, [a, b], [0, 0])", lambda: type(a.id(a.dom))(a.dom, b.cod, [a, b], [0, 0])),
                          ("a >> b (padded)", lambda: a @ a.id(b.dom) >> a.id(a.cod) @ b),
                          ("a.tensor(b, a)", lambda: a.tensor(b, a)), ("a[::-1] @ b", lambda: a[::-1] @ b)):
         n += 1
@@ -419,6 +436,9 @@ def run(ctx):
             for e1 in e1s:
                 for e2 in e2s:
                     items.append(("mix", dict(cls1=c1, expr1=e1, cls2=c2, expr2=e2)))
+    for c1, e1, c2, e2 in COLLISIONS:
+        items.append(("mix", dict(cls1=c1, expr1=e1, cls2=c2, expr2=e2)))
+        items.append(("mix", dict(cls1=c2, expr1=e2, cls2=c1, expr2=e1)))
     for p in pmap(_zoo_worker, build.shards(items, 64)):
         ctx.merge(p)
     plan.append("zoo: %d box constructors / flag variants / composite subclasses x %d derived values; "
